@@ -47,6 +47,8 @@ enum Req {
     CheckOnchain { k: u32 },
     AddBlock,
     Allowlist,
+    /// PreapproveKeysend as the protocol handler serves it: the velocity approver decides, then the node records
+    ApproveKeysend { k: u8 },
 }
 
 impl Req {
@@ -66,6 +68,7 @@ impl Req {
             Req::Keysend { .. } => "add_keysend",
             Req::CheckOnchain { .. } => "check_onchain_tx",
             Req::AddBlock => "add_block",
+            Req::ApproveKeysend { .. } => "approve_keysend",
             Req::Allowlist => "add_allowlist",
         }
     }
@@ -303,12 +306,43 @@ impl Base {
                 Ok(Err(e)) => format!("err:{}", e.chars().take(60).collect::<String>()),
                 Err(p) => if p.contains(ABORT_MSG) { "aborted".into() } else { format!("panic:{}", p.chars().take(90).collect::<String>()) },
             },
+            Req::ApproveKeysend { k } => {
+                // every world has one velocity approver (1_000_000 msat per hour, declining delegate), shared by
+                // all its requests like the handler's; each request asks for 600_000 msat: whatever the order,
+                // exactly the first one fits
+                use vls_protocol_signer::approver::Approve;
+                let approver = approver_for(world);
+                let payee = PublicKey::from_secret_key(secp, &SecretKey::from_slice(&[5; 32]).unwrap());
+                st(report::catch(|| approver.handle_proposed_keysend(node, payee, PaymentHash([0xA0 + *k; 32]), 600_000)), |b| b.to_string())
+            }
             Req::Allowlist => {
                 let a = node.get_native_address(&vec![ChildNumber::from_normal_idx(7).unwrap()].into()).map(|a| a.to_string()).unwrap_or_default();
                 st(report::catch(|| node.add_allowlist(&[a.clone()])), |_| String::new())
             }
         }
     }
+}
+
+type VApprover = vls_protocol_signer::approver::VelocityApprover<vls_protocol_signer::approver::NegativeApprover>;
+static APPROVERS: std::sync::Mutex<BTreeMap<usize, Arc<VApprover>>> = std::sync::Mutex::new(BTreeMap::new());
+
+fn approver_key(world: &World) -> usize {
+    Arc::as_ptr(&world.node) as usize
+}
+
+fn approver_for(world: &World) -> Arc<VApprover> {
+    use lightning_signer::util::velocity::{VelocityControl, VelocityControlIntervalType, VelocityControlSpec};
+    let mut map = APPROVERS.lock().unwrap_or_else(|e| e.into_inner());
+    map.entry(approver_key(world))
+        .or_insert_with(|| {
+            let spec = VelocityControlSpec { limit_msat: 1_000_000, interval_type: VelocityControlIntervalType::Hourly };
+            Arc::new(VApprover::new(world.clock.clone(), VelocityControl::new(spec), vls_protocol_signer::approver::NegativeApprover()))
+        })
+        .clone()
+}
+
+fn forget_approver(world: &World) {
+    APPROVERS.lock().unwrap_or_else(|e| e.into_inner()).remove(&approver_key(world));
 }
 
 fn gen_req(rng: &mut Rng, base: &Base) -> Req {
@@ -390,7 +424,9 @@ fn run_sequential(base: &Base, secp: &Secp256k1<All>, threads: &[Vec<Req>], orde
         idx[t] += 1;
         replies[t].push(base.exec(&world, secp, req));
     }
-    Ok(Outcome { replies, state: canon(&world) })
+    let out = Outcome { replies, state: canon(&world) };
+    forget_approver(&world);
+    Ok(out)
 }
 
 enum ConcResult {
@@ -402,6 +438,7 @@ enum ConcResult {
 
 fn run_concurrent(base: &Base, threads: &[Vec<Req>], seed: u64, strategy: Strategy) -> Result<(ConcResult, u64, u64, Vec<(String, String)>), String> {
     let world = Arc::new(base.instantiate()?);
+    let _approver = approver_for(&world);
     let sch = Sched::new(threads.len(), seed, strategy);
     let current: Arc<Vec<std::sync::atomic::AtomicUsize>> = Arc::new((0..threads.len()).map(|_| std::sync::atomic::AtomicUsize::new(0)).collect());
     let mut replies: Vec<Vec<String>> = vec![];
@@ -437,6 +474,7 @@ fn run_concurrent(base: &Base, threads: &[Vec<Req>], seed: u64, strategy: Strate
             replies.push(h.join().unwrap_or_else(|_| vec!["thread-join-failed".into()]));
         }
     });
+    forget_approver(&world);
     let steps = sch.steps();
     let th = sch.trace_hash();
     let edges = sch.edges();
@@ -492,6 +530,16 @@ fn main() {
                 let k = if total >= 3 { 1 } else { 1 + srng.below(2) as usize };
                 total += k;
                 threads.push((0..k).map(|_| gen_req(&mut srng, &base)).collect());
+            }
+            if set % 6 == 5 {
+                // an approver set: two threads ask the velocity approver for a keysend each (different hashes)
+                threads = vec![vec![Req::ApproveKeysend { k: 0 }], vec![Req::ApproveKeysend { k: 1 }]];
+                if srng.bool() {
+                    let extra = gen_req(&mut srng, &base);
+                    let t = srng.usize(2);
+                    if srng.bool() { threads[t].push(extra) } else { threads[t].insert(0, extra) }
+                }
+                r.count("request_sets.velocity_approver");
             }
             let kinds: Vec<Vec<&str>> = threads.iter().map(|t| t.iter().map(|q| q.kind()).collect()).collect();
             r.count("request_sets");
